@@ -168,24 +168,67 @@ def history(rng):
     return {"events": events, "problems": problems, "pool": len(pool)}
 
 
+def hash_sweep(rng, n):
+    """Every relation the factories return — including the ones produced by the rarely taken routes: partial and complete
+    backtracking of each operation kind past each other kind, SQL conformation, join/chain rules — and every node and
+    operation inside it is hashable; building the same program again gives an equal relation with an equal hash."""
+    import sqlprog as sp
+    progs = list(mp.forced_backtrack_cases(rng, n))
+    for _ in range(n):
+        progs.append(mp.gen_mprog(rng, rng.choice([1, 2, 3, 4, 6]), p_opts=0.5)[0])
+        progs.append(sp.gen_sqlprog(rng, rng.choice([1, 2, 3, 4]))[0])
+    bad, built = [], 0
+    for p in progs:
+        w = mp.World()
+        try:
+            rel = mp.build_impl(p, w)
+            again = mp.build_impl(p, w)
+        except Exception:  # noqa: BLE001 — refusals are C14/C20's concern
+            continue
+        built += 1
+        why = None
+        try:
+            for nd in all_nodes(rel):
+                hash(nd)
+                for attr in ("operation",):
+                    if hasattr(nd, attr):
+                        hash(getattr(nd, attr))
+            if again == rel and hash(again) != hash(rel):
+                why = "equal relations with different hashes"
+            if len({rel, again}) != (1 if again == rel else 2):
+                why = "set membership disagrees with equality"
+        except TypeError as e:
+            why = f"not hashable: {e}"
+        if why:
+            bad.append({"program": jsonable(p), "tree": str(rel), "problem": why})
+    return built, bad
+
+
 def run(ctx):
     rng = random.Random(ctx.seed)
     s1 = core.s1(ctx, ["Static"], "Properties.C09", THEOREMS)
     n = 150 if ctx.tier == "quick" else 2500
     hists = [h for h in (history(rng) for _ in range(n)) if h is not None]
     found = False
+    swept, unhashable = hash_sweep(rng, 150 if ctx.tier == "quick" else 3000)
+    for b in sorted(unhashable, key=lambda b: len(b["tree"]))[:3]:
+        found |= ctx.failing_case({"kind": "hashability", "case": b}, None)
     bad = [h for h in hists if h["problems"]]
     for h in sorted(bad, key=lambda h: len(h["events"]))[:3]:
         found |= ctx.failing_case({"kind": "persistence-or-hash", "case": {"events": h["events"], "problems": h["problems"][:5]}}, None)
     core.conclude_s1(ctx, s1, found or bool(ctx.violations))
     nevents = sum(len(h["events"]) for h in hists)
     ctx.coverage.update({
-        "evaluations": nevents, "distinct_nontrivial": len({json.dumps(h["events"]) for h in hists if len(h["events"]) >= 3}),
+        "evaluations": nevents + swept, "distinct_nontrivial": len({json.dumps(h["events"]) for h in hists if len(h["events"]) >= 3}),
         "rule": "random interleavings of factory calls (all options), to_executable(), process()+execute(), Diagnostics.run "
                 "and rebuilding over a shared pool of relations in three engines; after every event every relation obtained "
                 "earlier is fingerprinted again (str, repr, hash, columns, bounds, locked flag, contents of every reachable "
                 "leaf payload cell); non-trivial = a history with at least three events",
         "histories": len(hists), "histories_with_problems": len(bad),
+        "hash_sweep": {"relations_built": swept, "not_hashable_or_inconsistent": len(unhashable),
+                       "rule": "forced backtracking shapes (partial and complete, every operation kind), random multi-engine "
+                               "programs with options and SQL programs: every node and operation hashed, rebuilt relation "
+                               "compared by == / hash / set membership"},
         "samples": [hists[0]["events"][:4], hists[-1]["events"][:4]],
         "explanation": "static tables (dataclasses, write sites) are regenerated from the source and decided in Coq; the dynamic "
                        "histories validate that the tables' premises describe the running code",
